@@ -133,6 +133,24 @@ class Gen:
         self.hit("decl_classmod_and_value")
         return {"cm": self.args(2), "val": self.expr(2)}
 
+    # ---- trailing comment: description string and / or annotation ---------------------------------
+    ANNS = ["annotation(Evaluate = true)", "annotation(Documentation(info = \"d\"))",
+            "annotation(choices(checkBox = true), k = 1)", "annotation()"]
+
+    def ann(self, what, p=0.3):
+        """None | annotation text; an annotation with arguments creates a Symbol in the listener"""
+        if self.r.random() >= p:
+            return None
+        a = self.r.choice(self.ANNS)
+        self.hit(what + "_with_annotation")
+        return a
+
+    def descr(self, what, p=0.35):
+        if self.r.random() >= p:
+            return ""
+        self.hit(what + "_with_description")
+        return self.r.choice(["descr", "the .* import", "x.*", "a, b"])
+
     # ---- elements ----------------------------------------------------------------------------
     def clause(self, names):
         r = self.r
@@ -152,7 +170,7 @@ class Gen:
             if cd is not None and dd is not None:
                 self.hit("clause_and_declarator_dims")
             decls.append({"name": names(), "dims": dd, "mod": self.decl_mod(),
-                          "comment": r.choice(["", "", "", "a comment", "x"])})
+                          "comment": r.choice(["", "", "", "a comment", "x"]), "ann": self.ann("declarator", 0.15)})
         self.hit("declarators_%d" % min(nd, 3))
         return {"k": "comp", "prefixes": pre, "type": r.choice(TYPES), "dims": cd, "decls": decls}
 
@@ -192,22 +210,24 @@ class Gen:
                     a = self.args(1) if r.random() < 0.5 else None
                     if a:
                         self.hit("extends_with_modification")
-                    els.append({"k": "ext", "path": r.choice([["Base"], ["Pk", "Base"], ["B2"]]), "args": a})
+                    els.append({"k": "ext", "path": r.choice([["Base"], ["Pk", "Base"], ["B2"]]), "args": a,
+                                "ann": self.ann("extends")})
                 elif x < 0.86:
                     f = r.choice(["qual", "qual", "short", "star", "list"])
                     if dup == "imp" and imp_used and r.random() < 0.7:
                         f = "qual"
                     self.hit("import_" + f)
                     pk = r.choice([["Lib"], ["Lib", "Sub"]])
+                    tail = {"descr": self.descr("import_" + f), "ann": self.ann("import_" + f)}
                     if f == "star":
-                        els.append({"k": "imp", "form": f, "path": pk})
+                        els.append(dict({"k": "imp", "form": f, "path": pk}, **tail))
                     elif f == "list":
                         n = r.choice([1, 2, 2, 3, 4])
                         ns = [imp_names.pop() for _ in range(n)]
                         imp_used.append(ns[0])
                         if n >= 3:
                             self.hit("import_list_3plus")
-                        els.append({"k": "imp", "form": f, "path": pk, "names": ns})
+                        els.append(dict({"k": "imp", "form": f, "path": pk, "names": ns}, **tail))
                     else:
                         if dup == "imp" and imp_used and r.random() < 0.8 and f == "qual":
                             self.hit("planted_duplicate_import")
@@ -216,9 +236,9 @@ class Gen:
                             n = imp_names.pop()
                             imp_used.append(n)
                         if f == "qual":
-                            els.append({"k": "imp", "form": f, "path": pk + [n]})
+                            els.append(dict({"k": "imp", "form": f, "path": pk + [n]}, **tail))
                         else:
-                            els.append({"k": "imp", "form": f, "short": n, "path": pk + ["X" + n]})
+                            els.append(dict({"k": "imp", "form": f, "short": n, "path": pk + ["X" + n]}, **tail))
                 elif depth > 0 and nested < 3:
                     nested += 1
                     self.hit("nested_class")
@@ -316,22 +336,28 @@ class Printer:
                     t += self.mod(d["mod"])
                 if d["comment"]:
                     t += ' "%s"' % d["comment"]
+                if d.get("ann"):
+                    t += " " + d["ann"]
                 ds.append(t)
             return s + self.sp() + ("," + self.sp()).join(ds)
         if e["k"] == "ext":
             s = "extends " + ".".join(e["path"])
             if e["args"] is not None:
                 s += "(" + ", ".join(self.arg(a) for a in e["args"]) + ")"
-            return s
+            return s + (" " + e["ann"] if e.get("ann") else "")
         if e["k"] == "imp":
             p = ".".join(e["path"])
             if e["form"] == "qual":
-                return "import " + p
-            if e["form"] == "short":
-                return "import %s = %s" % (e["short"], p)
-            if e["form"] == "star":
-                return "import %s.*" % p
-            return "import %s.{%s}" % (p, ", ".join(e["names"]))
+                s = "import " + p
+            elif e["form"] == "short":
+                s = "import %s = %s" % (e["short"], p)
+            elif e["form"] == "star":
+                s = "import %s.*" % p
+            else:
+                s = "import %s.{%s}" % (p, ", ".join(e["names"]))
+            if e.get("descr"):
+                s += ' "%s"' % e["descr"]
+            return s + (" " + e["ann"] if e.get("ann") else "")
         return self.cls(e["cls"], ind + "  ")
 
     def cls(self, c, ind=""):
@@ -632,6 +658,11 @@ def cq_dims(d):
     return core.cq_opt(cq_ls([x[1] for x in d]) if d is not None else None)
 
 
+def ann_flag(e):
+    """annotation with at least one argument (element modification)"""
+    return cq_bool(bool(e.get("ann")) and e["ann"] != "annotation()")
+
+
 def cq_element(e):
     if e["k"] == "comp":
         ds = cq_list(["(mkD %s %s %s %s)" % (cq_str(d["name"]), cq_dims(d["dims"]),
@@ -639,16 +670,17 @@ def cq_element(e):
                                              cq_str(d["comment"])) for d in e["decls"]])
         return "(EComp (mkC %s %s %s %s))" % (cq_ls(e["prefixes"]), cq_ls(e["type"]), cq_dims(e["dims"]), ds)
     if e["k"] == "ext":
-        return "(EExt %s %s)" % (cq_ls(e["path"]),
-                                 core.cq_opt(cq_list([cq_arg(a) for a in e["args"]]) if e["args"] is not None else None))
+        return "(EExt %s %s %s)" % (cq_ls(e["path"]),
+                                    core.cq_opt(cq_list([cq_arg(a) for a in e["args"]]) if e["args"] is not None else None),
+                                    ann_flag(e))
     if e["k"] == "imp":
         if e["form"] == "qual":
-            return "(EImp (ImpQual %s))" % cq_ls(e["path"])
+            return "(EImp (ImpQual %s) %s)" % (cq_ls(e["path"]), ann_flag(e))
         if e["form"] == "short":
-            return "(EImp (ImpShort %s %s))" % (cq_str(e["short"]), cq_ls(e["path"]))
+            return "(EImp (ImpShort %s %s) %s)" % (cq_str(e["short"]), cq_ls(e["path"]), ann_flag(e))
         if e["form"] == "star":
-            return "(EImp (ImpStar %s))" % cq_ls(e["path"])
-        return "(EImp (ImpList %s %s))" % (cq_ls(e["path"]), cq_ls(e["names"]))
+            return "(EImp (ImpStar %s) %s)" % (cq_ls(e["path"]), ann_flag(e))
+        return "(EImp (ImpList %s %s) %s)" % (cq_ls(e["path"]), cq_ls(e["names"]), ann_flag(e))
     return cq_cls(e["cls"])
 
 
@@ -716,7 +748,16 @@ def corpus():
     ]}
     c3 = {"ctype": "model", "name": "C3", "comment": "", "items": [
         ["sec", "unl", [comp([], ["Real"], None, [d("a"), d("b"), d("a")])]]]}
-    return [[c1], [c2], [c3]]
+    c4 = {"ctype": "model", "name": "C4", "comment": "", "items": [
+        ["sec", "unl", [{"k": "imp", "form": "star", "path": ["P"], "descr": "descr", "ann": None},
+                        {"k": "imp", "form": "star", "path": ["Q"], "descr": "", "ann": "annotation(Evaluate = true)"},
+                        comp([], ["Real"], None, [dict(d("x", None, None, "c"), ann="annotation(Evaluate = true)"), d("y")]),
+                        {"k": "imp", "form": "short", "short": "Z", "path": ["A", "C"], "descr": "x.*", "ann": "annotation()"},
+                        {"k": "ext", "path": ["E"], "args": None, "ann": "annotation(k = 1)"},
+                        comp([], ["Real"], None, [d("z")]),
+                        {"k": "imp", "form": "list", "path": ["A"], "names": ["C", "D"], "descr": "l", "ann": None},
+                        {"k": "imp", "form": "qual", "path": ["Lib", "B"], "descr": "d2", "ann": None}]]]}
+    return [[c1], [c2], [c3], [c4]]
 
 
 def eval_cases(ctx, label, triples, shard=50, workers=6):
